@@ -1,13 +1,16 @@
 package props
 
 import (
+	"bytes"
 	"fmt"
 	"os"
 	"reflect"
+	"sort"
 	"strconv"
 	"strings"
 
 	"github.com/goreleaser/nfpm/v2"
+	"gopkg.in/yaml.v3"
 	"verif/harness/internal/report"
 	"verif/harness/internal/rng"
 	"verif/harness/internal/wire"
@@ -370,6 +373,110 @@ func runC02(c *Ctx) error {
 		}
 		for _, f := range Formats {
 			metaCase(c, fam2, f, s, map[string]any{"case_seed": seed, "contents": withContents})
+		}
+	}
+	return c02YAMLRoute(c, r)
+}
+
+// c02YAMLRoute: the route a user's nfpm.yaml takes.  The same random metadata is written out as a YAML document
+// (yaml.v3 over nfpm.Config's own tags), read back with nfpm.Parse and asked for per format with Config.Get; every
+// leaf the packager is then handed must be the leaf the document states – after nfpm.WithDefaults and, for the six
+// relation lists the documentation calls expandable, after trimming blanks and dropping empty items (C16
+// expandSlice_no_dollar; values holding '$' are left out here, C16 owns them).  Together with the metadata family
+// (the package states what the packager was handed) this is "the package states what the configuration states".
+func c02YAMLRoute(c *Ctx, r *rng.R) error {
+	fam := c.Rep.Family("yaml-route", "random metadata (generator of the metadata family, plus format-specific lists that differ between deb and ipk) written as a YAML document, nfpm.Parse, Config.Get(format) x 5 formats: every leaf of the Info the packager is handed vs the leaf the document states (after WithDefaults; expandable relation lists trimmed, empty items dropped); one evaluation per (document, format); non-trivial = the document parses")
+	trim := func(l []string) []string {
+		var out []string
+		for _, x := range l {
+			if t := strings.TrimSpace(x); t != "" {
+				out = append(out, t)
+			}
+		}
+		return out
+	}
+	n := c.N(60, 1500)
+	for i := 0; i < n; i++ {
+		seed := r.U64()
+		mk := func() *nfpm.Info {
+			info := (&PkgSpec{Umask: 0o022, MTime: 1700000000}).Info()
+			rr := rng.New(seed)
+			genMetaInfo(rr, info)
+			// format-specific lists that must not leak into each other
+			info.Deb.Predepends = append([]string{"deb-only-pre"}, genRelList(rr)...)
+			info.IPK.Predepends = append([]string{"ipk-only-pre"}, genRelList(rr)...)
+			info.Deb.Breaks = append(info.Deb.Breaks, "deb-only-break (<< 2)")
+			info.IPK.Tags = append(info.IPK.Tags, "ipk-only-tag")
+			return info
+		}
+		stated := mk()
+		dollar := false
+		for _, l := range infoLeaves(stated) {
+			if strings.Contains(l.S, "$") || strings.Contains(strings.Join(l.L, " "), "$") {
+				dollar = true
+			}
+		}
+		if dollar {
+			continue
+		}
+		doc, err := yaml.Marshal(nfpm.Config{Info: *stated})
+		if err != nil {
+			return fmt.Errorf("yaml-route: marshal: %w", err)
+		}
+		cfg, perr := nfpm.Parse(bytes.NewReader(doc))
+		for _, f := range Formats {
+			key := fmt.Sprintf("%s|%d", f, seed)
+			if perr != nil {
+				fam.Eval(key, false)
+				fam.Count("parse-error")
+				continue
+			}
+			got, gerr := cfg.Get(f)
+			if gerr != nil {
+				fam.Eval(key, false)
+				fam.Count("get-error")
+				continue
+			}
+			want := mk()
+			want.Replaces, want.Provides, want.Depends = trim(want.Replaces), trim(want.Provides), trim(want.Depends)
+			want.Recommends, want.Suggests, want.Conflicts = trim(want.Recommends), trim(want.Suggests), trim(want.Conflicts)
+			nfpm.WithDefaults(want)
+			fam.Eval(key, true)
+			fam.Count(f)
+			gl, wl := map[string]leaf{}, map[string]leaf{}
+			for _, l := range infoLeaves(got) {
+				gl[l.Path] = l
+			}
+			for _, l := range infoLeaves(want) {
+				wl[l.Path] = l
+			}
+			var paths []string
+			for p := range wl {
+				paths = append(paths, p)
+			}
+			for p := range gl {
+				if _, ok := wl[p]; !ok {
+					paths = append(paths, p)
+				}
+			}
+			sort.Strings(paths)
+			for _, p := range paths {
+				g, w := gl[p], wl[p]
+				same := g.S == w.S && g.N == w.N && g.B == w.B && len(g.L) == len(w.L)
+				for k := 0; same && k < len(g.L); k++ {
+					same = g.L[k] == w.L[k]
+				}
+				if same {
+					continue
+				}
+				c.Rep.Find(report.Finding{Property: "C02", Family: "yaml-route", Shape: f + ":parsed-configuration-differs-from-document:" + p,
+					What:  fmt.Sprintf("the document states %s = %q %q %d %v; after nfpm.Parse and Config.Get(%s) the packager is handed %q %q %d %v", p, w.S, w.L, w.N, w.B, f, g.S, g.L, g.N, g.B),
+					Input: map[string]any{"case_seed": seed, "format": f, "leaf": p, "document": string(doc)}})
+				break
+			}
+		}
+		if len(fam.Samples) < 2 {
+			fam.Sample(map[string]any{"case_seed": seed, "document_bytes": len(doc)})
 		}
 	}
 	return nil
